@@ -37,11 +37,17 @@ def gen_case(rng):
     sp = [["s", "p", i] for i in range(npar)]
     su = [["s", "u", i] for i in range(nu)]
     t = [["s", "t"]]
-    ode = [rexpr(rng, sx + sp + su + t) for _ in range(nx)]
-    es = [rexpr(rng, sx + sp + t) for _ in range(rng.randint(1, 3))]
-    pts = [{"x": [jq(dyadic(rng, -2, 2, 3)) for _ in range(nx)], "u": [jq(dyadic(rng, -2, 2, 3)) for _ in range(nu)],
+    # quadrature states (ocp.state(quad=True)) are states nx..nx+nq-1: their right-hand side may not depend on them,
+    # expressions may
+    nq = rng.choice([0, 0, 0, 1, 2])
+    sq = [["s", "x", nx + i] for i in range(nq)]
+    ode = [rexpr(rng, sx + sp + su + t) for _ in range(nx + nq)]
+    es = [rexpr(rng, sx + sq + sp + t) for _ in range(rng.randint(1, 3))]
+    if nq and rng.random() < 0.5:
+        es[0] = sq[0] if rng.random() < 0.5 else ["+", es[0], ["*", sq[-1], rng.choice(sx + t)]]
+    pts = [{"x": [jq(dyadic(rng, -2, 2, 3)) for _ in range(nx + nq)], "u": [jq(dyadic(rng, -2, 2, 3)) for _ in range(nu)],
             "p": [jq(dyadic(rng, -2, 2, 3)) for _ in range(npar)], "t": jq(dyadic(rng, -1, 3, 3))} for _ in range(3)]
-    return {"nx": nx, "np": npar, "nu": nu, "ode": ode, "es": es, "pts": pts, "order": rng.randint(0, 3)}
+    return {"nx": nx, "nq": nq, "np": npar, "nu": nu, "ode": ode, "es": es, "pts": pts, "order": rng.randint(0, 3)}
 
 
 def worker(c):
@@ -54,7 +60,7 @@ def worker(c):
         with contextlib.redirect_stdout(io.StringIO()):
             ocp = rockit.Ocp(T=1)
             case = {"states": [{"rows": 1, "cols": 1}] * c["nx"]}
-            xs = [ocp.state() for _ in range(c["nx"])]
+            xs = [ocp.state() for _ in range(c["nx"])] + [ocp.state(quad=True) for _ in range(c.get("nq", 0))]
             us = [ocp.control() for _ in range(c["nu"])]
             ps = [ocp.parameter() for _ in range(c["np"])]
             S = {"x": xs, "u": us, "p": ps}
@@ -163,7 +169,7 @@ def run(tier="quick", seed=0, jobs=16):
         else:
             nontriv.add(sha(c))
     return {"evaluations": len(cases), "distinct_nontrivial": len(nontriv),
-            "rule": "random ODEs (1-3 states, rational right-hand sides in x, u, p, t) x 1-3 (stacked, vector valued) "
+            "rule": "random ODEs (1-3 states plus 0-2 quadrature states, rational right-hand sides in x, u, p, t) x 1-3 (stacked, vector valued) "
                     "expressions of states, parameters and explicit time (polynomials, quotients with 1+s^2 denominators, "
                     "powers, products) x 3 rational evaluation points; controls of order 0..3 (chain walk, one more raises); "
                     "der of a control-dependent expression raises.  distinct by hash of the case",
